@@ -198,3 +198,46 @@ package api
 //@   ensures[missing] ispost(ctx) && jok(b, ocraValidateReq) && (ocrabad(b) || trim(jstr(b, "code")) == "") ==> respstatus(ctx) == 400
 //@   ensures[status] respstatus(ctx) == 200 || respstatus(ctx) == 400 || respstatus(ctx) == 405 || respstatus(ctx) == 500
 //@   ensures[once] respnbody(ctx) == 1
+
+// ---- router ------------------------------------------------------------------------
+
+//@ func api.totpGeneration() (h)
+//@   ensures funcis(h, totpGeneration$1)
+//@ func api.totpValidation() (h)
+//@   ensures funcis(h, totpValidation$1)
+//@ func api.hotpGeneration() (h)
+//@   ensures funcis(h, hotpGeneration$1)
+//@ func api.hotpValidation() (h)
+//@   ensures funcis(h, hotpValidation$1)
+//@ func api.ocraGeneration() (h)
+//@   ensures funcis(h, ocraGeneration$1)
+//@ func api.ocraValidation() (h)
+//@   ensures funcis(h, ocraValidation$1)
+//@ func api.listOCRASuites() (h)
+//@   ensures funcis(h, listOCRASuites$1)
+//@ func api.ocraSuiteConfig() (h)
+//@   ensures funcis(h, ocraSuiteConfig$1)
+//@ func api.otpURLGeneration() (h)
+//@   ensures funcis(h, otpURLGeneration$1)
+//@ func api.generateRandomSecret() (h)
+//@   ensures funcis(h, generateRandomSecret$1)
+//@ func api.home() (h)
+//@   ensures funcis(h, home$1)
+
+//@ macro postpath(p) = p == "/totp/generate" || p == "/totp/validate" || p == "/hotp/generate" || p == "/hotp/validate" || p == "/ocra/generate" ||
+//@ |   p == "/ocra/validate" || p == "/ocra/suite" || p == "/otp/url"
+//@ macro getpath(p) = p == "/ocra/suites" || p == "/otp/secret" || p == "/"
+//@ func api.routers(ctx)
+//@   requires ctx != nil
+//@   domain respnbody(ctx) == 0
+//@   modifies ctx
+//@   let p = reqpath(ctx)
+//@   let b = reqbody(ctx)
+//@   ensures[notfound] !postpath(p) && !getpath(p) && p != "/docs" && !hasprefix(p, "/docs/") ==> respstatus(ctx) == 404 && respnbody(ctx) == 1
+//@   ensures[docs] p == "/docs" ==> respstatus(ctx) == 302
+//@   ensures[post] postpath(p) && !ispost(ctx) ==> respstatus(ctx) == 405
+//@   ensures[get] getpath(p) && !isget(ctx) ==> respstatus(ctx) == 405
+//@   ensures[once] postpath(p) || getpath(p) ==> respnbody(ctx) == 1
+//@   ensures[hotpgen] p == "/hotp/generate" && ispost(ctx) && jok(b, otpGenerateReq) && trim(jstr(b, "secret")) != "" && b32ok(jstr(b, "secret")) ==> respstatus(ctx) == 200 &&
+//@ |   jstr(respbody(ctx), "code") == hotp(algoof(jstr(b, "algorithm")), b32key(jstr(b, "secret")), jnum(b, "counter"), digitsof(jstr(b, "digits")))
+//@   ensures[secret] p == "/otp/secret" && isget(ctx) ==> respstatus(ctx) == 200 || respstatus(ctx) == 500
